@@ -1449,7 +1449,12 @@ func (c *Ctx) concatForm(v ssa.Value, env Env) string {
 		}
 		if env != nil {
 			if s, ok := env[v]; ok {
-				add(s)
+				// a value handed down in concatenation form keeps its parts
+				for _, part := range strings.Split(s, " ++ ") {
+					if part != `""` {
+						add(part)
+					}
+				}
 				return
 			}
 		}
@@ -1476,6 +1481,26 @@ func (c *Ctx) concatForm(v ssa.Value, env Env) string {
 				return
 			}
 		case *ssa.Call:
+			// an unexported helper that composes the string: under the arguments of this call, the value of the one
+			// exit that stays reachable
+			if g := x.Call.StaticCallee(); g != nil && inModule(g) && g.Blocks != nil && g.Object() != nil && !g.Object().Exported() && isStringType(x.Type()) && d < 6 {
+				genv := c.concatEnv(&x.Call, g, env)
+				live := reach(g.Blocks[0], c.pruned(g, genv))
+				var rets []*ssa.Return
+				for _, r := range returnsOf(g) {
+					if _, l := live[r.Block()]; l {
+						rets = append(rets, r)
+					}
+				}
+				if len(rets) == 1 && len(rets[0].Results) == 1 {
+					for _, part := range strings.Split(c.concatForm(returnedValue(rets[0], 0), genv), " ++ ") {
+						if part != "" {
+							add(part)
+						}
+					}
+					return
+				}
+			}
 			if g := x.Call.StaticCallee(); g != nil && g.String() == "fmt.Sprintf" && len(x.Call.Args) == 2 {
 				if k, ok := x.Call.Args[0].(*ssa.Const); ok && k.Value != nil && k.Value.Kind() == constant.String {
 					if args, ok2 := c.varargValues(x.Call.Args[1]); ok2 {
@@ -1555,6 +1580,21 @@ func (c *Ctx) concatForm(v ssa.Value, env Env) string {
 	}
 	flat(v, 0)
 	return strings.Join(parts, " ++ ")
+}
+
+// concatEnv: the callee's environment with string arguments in concatenation form.
+func (c *Ctx) concatEnv(cc *ssa.CallCommon, g *ssa.Function, env Env) Env {
+	ne := c.calleeEnv(cc, g, env)
+	for i, a := range cc.Args {
+		if i < len(g.Params) && isStringType(a.Type()) {
+			if cf := c.concatForm(a, env); cf != "" {
+				ne[g.Params[i]] = cf
+			} else {
+				ne[g.Params[i]] = `""`
+			}
+		}
+	}
+	return ne
 }
 
 func isStringType(t types.Type) bool {
